@@ -30,6 +30,7 @@ package http2
 //@   props C20,C12
 //@   requires q != nil && wfQueue(q)
 //@   assigns q.s, outflow.n
+//@   ensures [C20:queue-stays-well-formed] wfQueue(q) && (ok ==> wfReq(wr))
 //@   ensures [C20:empty-queue-yields-nothing] len(old(q.s)) == 0 ==> !ok && q.s == old(q.s)
 //@   ensures [C20:blocked-head-stays] !ok ==> q.s == old(q.s)
 //@   ensures [C20:order-kept] ok ==> len(old(q.s)) > 0 && (q.s == old(q.s)[1:] || (len(q.s) == len(old(q.s)) && q.s[1:] == old(q.s)[1:] && isData(old(q.s)[0]) && isData(q.s[0]) && isData(wr) && dataOf(wr).p ++ dataOf(q.s[0]).p == old(dataOf(q.s[0]).p) && q.s[0].stream == old(q.s)[0].stream))
@@ -73,7 +74,7 @@ package http2
 //@   ensures n == ite(isData(wr), len(dataOf(wr).p), 0)
 
 //@ -- random scheduler: control frames in `zero`, one queue per stream id in the map
-//@ pure func rwsInv(ws *randomWriteScheduler) bool = ws.sq != nil && wfQueue(ws.zero) && poolOK(ws.queuePool) && (forall id uint32 :: mapHas(ws.sq, id) ==> mapGet(ws.sq, id) != nil && wfQueue(mapGet(ws.sq, id)))
+//@ pure func rwsInv(ws *randomWriteScheduler) bool = ws.sq != nil && wfQueue(ws.zero) && poolOK(ws.queuePool) && (forall id uint32 :: mapHas(ws.sq, id) ==> mapGet(ws.sq, id) != nil && mapGet(ws.sq, id) != ws.zero && wfQueue(mapGet(ws.sq, id))) && (forall i int :: 0 <= i && i < len(ws.queuePool) ==> ws.queuePool[i] != ws.zero)
 
 //@ func (*randomWriteScheduler).Push :: ws, wr
 //@   props C20
@@ -85,4 +86,4 @@ package http2
 //@   props C20
 //@   requires ws != nil && rwsInv(ws)
 //@   ensures [C20:control-first] len(old(ws.zero.s)) > 0 ==> ok && wr == old(ws.zero.s)[0] && ws.zero.s == old(ws.zero.s)[1:]
-//@   loop 1 invariant len(ws.zero.s) == 0 && ws.zero.s == old(ws.zero.s)
+//@   loop 1 invariant len(ws.zero.s) == 0 && ws.zero.s == old(ws.zero.s) && rwsInv(ws)
